@@ -25,6 +25,9 @@ open Bisquitt Gw
 @[simp] theorem setNow_st (g : Gw) (t : Nat) : (g.setNow t).st = g.st := rfl
 @[simp] theorem setSt_st (g : Gw) (s : CState) : (g.setSt s).st = s := rfl
 @[simp] theorem clearBuffer_st (g : Gw) : g.clearBuffer.st = g.st := rfl
+@[simp] theorem snSendNow_st (g : Gw) (p : Pkt) : (g.snSendNow p).st = g.st := rfl
+@[simp] theorem clearBufferUnlessAsleep_st (g : Gw) : g.clearBufferUnlessAsleep.st = g.st := by
+  unfold clearBufferUnlessAsleep; split <;> rfl
 @[simp] theorem startSleepPinger_st (g : Gw) (d : UInt16) : (g.startSleepPinger d).st = g.st := rfl
 @[simp] theorem newTopicId_st (g : Gw) : g.newTopicId.2.st = g.st := by
   unfold newTopicId
